@@ -7,6 +7,12 @@ CLAIMS = {
     note="Trusted: std char/string semantics as specified in specs/prelude/strings.rs (is_ascii_alphanumeric, trim_matches, format!{:x}, chars().map().collect()), the PathBuf component model in specs/prelude/paths.rs, arbitrary-valued stubs for env/thread-local lookups; extraction edits R1/R8/R9 as logged in the evidence. WalrusBuilder::build and create_new_file/index_path are not yet under contract.",
     technique="contract-based deductive verification (Verus/Z3) of mechanically extracted real functions",
     design="4/C14"),
+ "C25": dict(
+    level="proof",
+    text="Verus proves, for every topic string and every u64 segment, that the real wal_key returns exactly \"t_\"+topic+\"_s_\"+decimal(segment) and that the real parse_wal_key maps every string of that shape back to (topic, segment); the round-trip theorem and one-to-one-ness are then lemmas over these two contracts (the right-most \"_s_\" of a key always starts at 2+|topic| because decimal digits contain no '_'). Unbounded; the suite has no test for this mapping at all.",
+    note="Trusted: Seq<char> specifications of str::{rsplitn,splitn,split_once,rsplit_once,strip_prefix,strip_suffix,starts_with,trim_start_matches,parse::<u64>,to_string} and of format!/Display for integers in specs/prelude/str_ext.rs and specs/model/c25_model.rs (axioms: decimal digits are non-empty digit strings; parse inverts Display). On violation the scenario family replay/c25 runs the real functions natively to produce a concrete failing (topic, segment).",
+    technique="contract-based deductive verification (Verus/Z3) of mechanically extracted real functions; native replay of counterexamples",
+    design="4/C25"),
 }
 
 NOT_APPLICABLE = {
